@@ -10,14 +10,34 @@ from zcheck.rules import guards
 tus, info = extract(sys.argv[1].split(","))
 prog = Program(tus)
 out = []
-for sel in sys.argv[3:]:
+codes = None
+zero_fail = False
+args = []
+for a in sys.argv[3:]:
+    if a.startswith("--codes="):
+        codes = a[8:].split(",")
+    elif a == "--zero-is-failure":
+        zero_fail = True
+    else:
+        args.append(a)
+
+
+def zf(f, b, i, r):
+    from zcheck.ir import strip_casts
+    e = strip_casts(r.get("e"))
+    return e is not None and e.get("v") == 0
+
+
+for sel in args:
     if sel.startswith("fn:"):
         fns = prog.functions.get(sel[3:], [])
     else:
         fns = prog.fns_in(sel)
     for f in sorted(fns, key=lambda x: (x.file, x.line)):
-        for e in guards.inventory_of(f):
+        for e in guards.inventory_of(f, codes=codes, skip_forwarded=not zero_fail, extra_failure=zf if zero_fail else None):
             e["file"] = f.file
+            if zero_fail:
+                e["zero_is_failure"] = True
             out.append(e)
 json.dump(out, open(sys.argv[2], "w"), indent=0)
 print(len(out), "guards in", len({e["fn"] for e in out}), "functions")
